@@ -52,6 +52,7 @@ class Recorder:
         self.script_pos: dict[tuple[str, str | None], int] = {}
         self.scripts: dict[str, list[Any]] = {}
         self.call_seq = 0
+        self._instances: dict[int, tuple[int, Any]] = {}
         self.snapshot_indices: bool = False
         self.index_ids: list[str] = []
         self.extra_call_fields: Callable[[dict[str, Any], dict[str, Any]], None] | None = None
@@ -103,6 +104,13 @@ class Recorder:
         if kind == 'event':
             ev = kw.get('event') or {}
             rec['etype'] = ev.get('type')
+        if kind in ('daemon', 'timer') and kw.get('stopped') is not None:
+            # one stopper per spawned instance: its identity tells respawns from retries (a reference is kept, so ids are not reused)
+            st = kw['stopped']
+            if id(st) not in self._instances:
+                self._instances[id(st)] = (len(self._instances), st)
+            rec['inst'] = self._instances[id(st)][0]
+            rec['stopped_at_call'] = bool(st)
         client = self.sim.kube.clients.get(inc) if inc else None
         if client is not None and client.dead:
             rec['post_mortem'] = True
@@ -429,16 +437,21 @@ def _daemon_body(rec: Recorder, hid: str, persona: dict[str, Any]) -> Callable[.
         stopped = kw['stopped']
         outcome = 'ok'
         extra: dict[str, Any] = {}
+        async def note_flag() -> None:
+            # pure observation: when was the stop flag raised (whatever the persona does about it)
+            await stopped.wait()
+            extra.setdefault('flag_seen_at', rec.now())
+        noter = asyncio.create_task(note_flag())
         try:
             atom = rec.next_atom(hid, call['uid'])
             if atom != ['ok']:
                 await play(rec, call, atom, kw)
             if ptype == 'obedient' or ptype == 'fail':
                 await stopped.wait()
-                extra['flag_seen_at'] = rec.now()
+                extra.setdefault('flag_seen_at', rec.now())
             elif ptype == 'linger':
                 await stopped.wait()
-                extra['flag_seen_at'] = rec.now()
+                extra.setdefault('flag_seen_at', rec.now())
                 await asyncio.sleep(float(persona.get('linger', 1.0)))
             elif ptype == 'stubborn':
                 await asyncio.Event().wait()
@@ -467,11 +480,14 @@ def _daemon_body(rec: Recorder, hid: str, persona: dict[str, Any]) -> Callable[.
             extra.setdefault('cancelled_at', []).append(rec.now())
             extra['stopped_flag'] = bool(stopped)
             extra['reasons'] = str(getattr(stopped, 'reason', None))
+            noter.cancel()
             rec.ret(call, 'cancelled', **extra)
             raise
         except BaseException as e:
+            noter.cancel()
             rec.ret(call, _outcome_name(e), exc=type(e).__name__, **extra)
             raise
+        noter.cancel()
         rec.ret(call, outcome, **extra)
         return None
     return daemon
